@@ -187,16 +187,37 @@ def sort_of(t):
 
 # -- constructors / accessors on value sorts ------------------------------------------------------
 
+def _acc(sort, cname, idx, term):
+    """Accessor with constructor folding: acc_i(mk(a0..an)) -> a_i."""
+    if z3.is_app(term) and term.decl().name() == cname and term.num_args() > idx and term.sort() == sort:
+        return term.arg(idx)
+    return None
+
+
+def Sel(arr, *idx):
+    """Select with beta-reduction when the array is a lambda term."""
+    for i in idx:
+        if z3.is_quantifier(arr) and arr.is_lambda() and arr.num_vars() == 1:
+            arr = z3.substitute_vars(arr.body(), i)
+        elif z3.is_app(arr) and arr.decl().kind() == z3.Z3_OP_CONST_ARRAY:
+            arr = arr.arg(0)
+        else:
+            arr = z3.Select(arr, i)
+    return arr
+
+
 def seq_mk(t, ln, arr):
     return sort_of(t).mk(ln, arr)
 
 
 def seq_len(t, term):
-    return z3.simplify(sort_of(t).len(term)) if False else sort_of(t).len(term)
+    r = _acc(sort_of(t), 'mk', 0, term)
+    return r if r is not None else sort_of(t).len(term)
 
 
 def seq_arr(t, term):
-    return sort_of(t).arr(term)
+    r = _acc(sort_of(t), 'mk', 1, term)
+    return r if r is not None else sort_of(t).arr(term)
 
 
 def opt_none(t):
@@ -208,11 +229,17 @@ def opt_some(t, v):
 
 
 def opt_is_none(t, term):
+    if z3.is_app(term) and term.sort() == sort_of(t):
+        if term.decl().name() == 'none' and term.num_args() == 0:
+            return z3.BoolVal(True)
+        if term.decl().name() == 'some' and term.num_args() == 1:
+            return z3.BoolVal(False)
     return sort_of(t).is_none(term)
 
 
 def opt_val(t, term):
-    return sort_of(t).val(term)
+    r = _acc(sort_of(t), 'some', 0, term)
+    return r if r is not None else sort_of(t).val(term)
 
 
 def tup_mk(t, *vals):
@@ -220,7 +247,8 @@ def tup_mk(t, *vals):
 
 
 def tup_get(t, term, i):
-    return getattr(sort_of(t), f'f{i}')(term)
+    r = _acc(sort_of(t), 'mk', i, term)
+    return r if r is not None else getattr(sort_of(t), f'f{i}')(term)
 
 
 def dict_mk(t, dom, val):
@@ -228,11 +256,13 @@ def dict_mk(t, dom, val):
 
 
 def dict_dom(t, term):
-    return sort_of(t).dom(term)
+    r = _acc(sort_of(t), 'mk', 0, term)
+    return r if r is not None else sort_of(t).dom(term)
 
 
 def dict_val(t, term):
-    return sort_of(t).val(term)
+    r = _acc(sort_of(t), 'mk', 1, term)
+    return r if r is not None else sort_of(t).val(term)
 
 
 def mat_mk(t, n0, n1, arr):
@@ -240,15 +270,41 @@ def mat_mk(t, n0, n1, arr):
 
 
 def mat_n0(t, term):
-    return sort_of(t).n0(term)
+    r = _acc(sort_of(t), 'mk', 0, term)
+    return r if r is not None else sort_of(t).n0(term)
 
 
 def mat_n1(t, term):
-    return sort_of(t).n1(term)
+    r = _acc(sort_of(t), 'mk', 1, term)
+    return r if r is not None else sort_of(t).n1(term)
 
 
 def mat_arr(t, term):
-    return sort_of(t).arr(term)
+    r = _acc(sort_of(t), 'mk', 2, term)
+    return r if r is not None else sort_of(t).arr(term)
+
+
+_col = {}
+
+
+def mat_col(elem_ty, arr, j):
+    """Column j of a 2-D array as a 1-D array: uninterpreted `col` with its definitional axiom (see col_axioms)."""
+    k = elem_ty.key
+    if k not in _col:
+        es = sort_of(elem_ty)
+        _col[k] = z3.Function('col_' + k, z3.ArraySort(z3.IntSort(), z3.ArraySort(z3.IntSort(), es)), z3.IntSort(),
+                              z3.ArraySort(z3.IntSort(), es))
+    return _col[k](arr, j)
+
+
+def col_axioms():
+    out = []
+    for k, f in _col.items():
+        A = z3.Const('colA_' + k, f.domain(0))
+        i, j = z3.Int('col_i'), z3.Int('col_j')
+        out.append(z3.ForAll([A, i, j], z3.Select(f(A, j), i) == z3.Select(z3.Select(A, i), j),
+                             patterns=[z3.Select(f(A, j), i)]))
+    return out
 
 
 _str_consts = {}
